@@ -40,6 +40,10 @@ SPEC = {
         'prepare': prepare_root,
         'model_module': 'Model.C16_Notify', 'shard': 120, 'timeout': 1500,
     }, {
+        'name': 'devstream', 'pkg': '.', 'test': 'TestVerifC16Stream',
+        'files': [('.', 'harness/root/zz_verif_c16stream_test.go')],
+        'model_module': 'Model.C16_Notify', 'shard': 500, 'timeout': 900, 'search_n': 200,
+    }, {
         'name': 'lifecycle', 'pkg': './pkg/lifecycle', 'test': 'TestVerifC16',
         'files': [('pkg/lifecycle', 'harness/lifecycle/zz_verif_c16_test.go')],
         'prepare': prepare_lifecycle,
@@ -53,7 +57,7 @@ SPEC = {
     'rule': 'stateless depth-first enumeration of the schedules of small scenarios (1-2 waiters, one updater with '
             'associate/update sequences of length <= 3, optional cancellation) on the real, instrumented code, one case per '
             'schedule with the status vector after every step and the waiters\' results; non-trivial = at least one '
-            'pre-emption; distinct = distinct case term',
+            'pre-emption; distinct = distinct case term; devstream: the real GroupDeviceStatus handler of a real service on a stub stream against random associate/update sequences with real parallelism (oracle only: the last reply per peer tells its final state)',
     'trusted_base': [
         'Coq 8.16.1 kernel; vm_compute for evaluating the model on cases',
         'no axioms',
